@@ -259,6 +259,12 @@ def _table_lookup(table, fname, site, config, exact):
             if sfn is not None and hasattr(sfn, 'locals'):
                 names = {sfn.locals[tk[1]].get('name') for tk in toks if tk[0] in ('param', 'local') and tk[1] <= sfn.argc}
             ok = ok and set(m['params']) <= names
+        if m.get('names'):
+            sfn = site.get('fn')
+            have = set()
+            if sfn is not None and hasattr(sfn, 'locals'):
+                have = {sfn.locals[tk[1]].get('name') for tk in toks if tk[0] in ('param', 'local') and tk[1] < len(sfn.locals)}
+            ok = ok and set(m['names']) <= have
         if 'expn' in m:
             ok = ok and site['span'].get('expn') == m['expn']
         if 'snip_contains' in m:
